@@ -179,7 +179,7 @@ theorem decode_bcn_ok (conv : Bc3Colour) (fmt : Format) (fn : Bytes → List UIn
     (InvP : UInt32 → Prop) (hdim : fmt.dim = 4) (hB : BlockOK conv fmt fn InvP)
     (hinit : ∀ p ∈ List.replicate 16 (color 0 0 0 255), InvP p)
     (w h d : Nat) (payload : Bytes) (ha : SliceAligned fmt h d) (hen : needed fmt w h d ≤ payload.length) :
-    ∃ rgba, Tex.decode payload w (h * d) (blockDecoder fmt.blockBytes fn) = .ok rgba ∧
+    ∃ rgba, Tex.decode payload w (h * d) fmt.blockBytes (blockDecoder fmt.blockBytes fn) = .ok (some rgba) ∧
       CanonPixels conv fmt w h d payload rgba := by
   have ha' : d ≤ 1 ∨ h % 4 = 0 := by simpa [SliceAligned, hdim] using ha
   have hdata : (w + 4 - 1) / 4 * ((h * d + 4 - 1) / 4) * fmt.blockBytes ≤ payload.length := by
@@ -187,7 +187,7 @@ theorem decode_bcn_ok (conv : Bc3Colour) (fmt : Format) (fn : Bytes → List UIn
     simpa [needed, sliceBlocks, Format.blocks, hdim] using hen
   obtain ⟨img', e, hs, hp⟩ := blockDecoder_ok conv fmt fn InvP hB hinit payload w (h * d)
     (Array.replicate (w * (h * d)) 0) hdata (by simp)
-  refine ⟨img'.toList.flatMap shuffle, by simp only [Tex.decode, e], ?_, ?_⟩
+  refine ⟨img'.toList.flatMap shuffle, by simp only [Tex.decode, e, if_neg (Nat.not_lt.mpr hdata)], ?_, ?_⟩
   · rw [flatMap_shuffle_length, Array.length_toList, hs, Nat.mul_assoc]
   · intro z hz y hy x hx
     obtain ⟨wd, h1, h2, h3⟩ := hp x (z * h + y) hx (row_lt h d y z hy hz)
@@ -271,7 +271,13 @@ theorem fromExisting_ok (hd : Spec.Tex.Header) (hwf : hd.WF) (fmt : Format)
   cases fmt with
   | bgra =>
     obtain ⟨rgba, e, hc⟩ := bgra_ok .bc1Modes _ _ _ payload hen
-    exact ⟨rgba, by simp only [modelFormat, e], hc⟩
+    have hlen : ¬ payload.length < hd.width.toNat * hd.height.toNat * hd.depth.toNat * 4 := by
+      have : needed .bgra hd.width.toNat hd.height.toNat hd.depth.toNat =
+          hd.width.toNat * hd.height.toNat * hd.depth.toNat * 4 := by
+        simp only [needed, sliceBlocks, Format.blocks, Format.dim, Format.blockBytes, Nat.add_sub_cancel, Nat.div_one]
+        rw [Nat.mul_comm hd.depth.toNat]
+      omega
+    exact ⟨rgba, by simp only [modelFormat, if_neg hlen, e], hc⟩
   | bc1 =>
     obtain ⟨rgba, e, hc⟩ := decode_bcn_ok .bc1Modes .bc1 decodeBc1Block _ rfl (bc1_blockOK _)
       (fun _ _ => trivial) _ _ _ payload ha hen
